@@ -26,7 +26,7 @@ from .consts import Evaluator, alts as const_alts
 from .repo import unparse, func_is_static, func_is_classmethod
 
 OTHER = "<other>"
-MAX_DEPTH = 12
+MAX_DEPTH = 40
 MAX_STEPS = 20000
 
 
@@ -324,7 +324,7 @@ class Interp:
                 if di >= 0:
                     env[p] = self.expr(a.defaults[di], {"@owner": owner, "@module": env["@module"]}, depth + 1)
                 elif p not in env:
-                    env[p] = ("unset", "argument " + p)
+                    raise _Raise(("ext", "TypeError", []), "TypeError: %s() missing required argument %r" % (getattr(fn, "name", "lambda"), p))
         for x, d in zip(a.kwonlyargs, a.kw_defaults):
             if x.arg in kwargs:
                 env[x.arg] = kwargs[x.arg]
@@ -1271,6 +1271,13 @@ class Interp:
             if v[0] == "unset" and len(args) > 2:
                 return args[2]
             return v
+        if name == "range" and args and all(a[0] == "c" and isinstance(a[1], int) for a in args):
+            try:
+                r = range(*[a[1] for a in args])
+                if len(r) <= 64:
+                    return ("list", [("c", i) for i in r])
+            except Exception:
+                pass
         if name in ("range", "enumerate", "zip", "map", "filter", "iter", "min", "max", "sum", "any", "all"):
             return ("fn", name, list(args))
         if name == "print":
@@ -1347,7 +1354,7 @@ class Interp:
             if func_is_classmethod(m):
                 return self.call_function(m, kk, ("cls", o.cls), args, kwargs, depth=depth + 1)
             r = self.call_function(m, kk, recv, args, kwargs, depth=depth + 1)
-            if r[0] == "node" and not r[1].symbolic and not hasattr(r[1], "made_by"):
+            if r[0] == "node" and not r[1].symbolic:
                 r[1].made_by = (o, name)
             return r
         if k == "dict":
@@ -1470,6 +1477,54 @@ def show(v, depth=0):
     if k == "closure":
         return "<closure %s>" % getattr(v[1], "name", "lambda")
     return "%s:%s" % (k, v[1] if len(v) > 1 else "")
+
+
+def clone_value(v, memo):
+    """copy of an abstract value graph (objects, nodes, containers, bound methods, closures); AST nodes and
+    class references are shared.  Used to re-use an expensively constructed object (a layer group) per run."""
+    if not isinstance(v, tuple) or not v:
+        return v
+    k = v[0]
+    if k == "obj":
+        o = v[1]
+        if id(o) in memo:
+            return ("obj", memo[id(o)])
+        c = Obj(o.cls)
+        memo[id(o)] = c
+        for f, x in o.fields.items():
+            c.fields[f] = clone_value(x, memo)
+        return ("obj", c)
+    if k == "node":
+        n = v[1]
+        if id(n) in memo:
+            return ("node", memo[id(n)])
+        c = Node(n.tag, n.path)
+        memo[id(n)] = c
+        c.attrs = {a: clone_value(x, memo) for a, x in n.attrs.items()}
+        c.removed = set(n.removed)
+        c.children = [(kind, clone_value(("node", ch), memo)[1] if isinstance(ch, Node) else clone_value(ch, memo)) for kind, ch in n.children]
+        c.data = clone_value(n.data, memo)
+        c.attrs_open = [tuple(clone_value(x, memo) if isinstance(x, tuple) else x for x in e) for e in n.attrs_open]
+        return ("node", c)
+    if k == "list":
+        return ("list", [clone_value(x, memo) for x in v[1]]) + tuple(v[2:])
+    if k == "dict":
+        return ("dict", {a: clone_value(x, memo) for a, x in v[1].items()}) + tuple(v[2:])
+    if k == "bound":
+        return ("bound", clone_value(v[1], memo), v[2])
+    if k == "closure":
+        env = v[2]
+        if id(env) in memo:
+            env2 = memo[id(env)]
+        else:
+            env2 = {}
+            memo[id(env)] = env2
+            for a, x in env.items():
+                env2[a] = clone_value(x, memo) if isinstance(x, tuple) else x
+        return ("closure", v[1], env2, v[3], clone_value(v[4], memo) if v[4] is not None else None)
+    if k in ("fn", "ext"):
+        return (k, v[1], [clone_value(x, memo) for x in v[2]])
+    return v
 
 
 # ----------------------------------------------------------------------------- driver
